@@ -30,6 +30,7 @@ import (
 //
 // G17 (stale signatures) is discharged by (a)–(c); G19 (interrupted write) by (a)–(d) or, failing that, by an atomic replace.
 type staleHiding struct {
+	recvAt map[types.Object]types.Object // receiver of a method-value hook -> the variable the method value was taken from
 	hook     bool // some FindPackage hook exists
 	goFiles  bool // (a)-(c)
 	invalid  bool // (d)
@@ -108,6 +109,23 @@ func computeStaleHiding(c *Ctx) *staleHiding {
 						if fi := r.Decls[fn]; fi != nil && fi.Decl.Body != nil {
 							hooks = append(hooks, hookSite{b, fi.Decl, fi.Decl.Type, fi.Decl.Body, fi.Pkg.TypesInfo, fi.Decl.Pos()})
 							break
+						}
+					}
+					fail("hook-unresolved", b.Name+" installs a FindPackage hook that cannot be resolved to a function body", v.Pos(), true)
+				case *ast.SelectorExpr:
+					// a method value x.m: the method's receiver stands for x
+					if sel := info.Selections[v]; sel != nil && sel.Kind() == types.MethodVal {
+						if fn, ok := sel.Obj().(*types.Func); ok {
+							if fi := r.Decls[fn]; fi != nil && fi.Decl.Body != nil && fi.Decl.Recv != nil && len(fi.Decl.Recv.List) == 1 && len(fi.Decl.Recv.List[0].Names) == 1 {
+								if xid, ok := ast.Unparen(v.X).(*ast.Ident); ok {
+									if h.recvAt == nil {
+										h.recvAt = map[types.Object]types.Object{}
+									}
+									h.recvAt[fi.Pkg.TypesInfo.Defs[fi.Decl.Recv.List[0].Names[0]]] = info.Uses[xid]
+									hooks = append(hooks, hookSite{b, fi.Decl, fi.Decl.Type, fi.Decl.Body, fi.Pkg.TypesInfo, fi.Decl.Pos()})
+									break
+								}
+							}
 						}
 					}
 					fail("hook-unresolved", b.Name+" installs a FindPackage hook that cannot be resolved to a function body", v.Pos(), true)
@@ -204,6 +222,9 @@ func analyseHook(c *Ctx, h *staleHiding, owner *Body, typ *ast.FuncType, body *a
 		}
 		goFilesOK = true
 		if a.staleObj != nil {
+			if at, ok := h.recvAt[a.staleObj]; ok && at != nil {
+				a.staleObj = at // the receiver of a method-value hook is the value the method was taken from
+			}
 			goFilesOK = staleMarking(c, h, owner, a.staleObj, fail)
 		}
 		if goFilesOK {
@@ -712,6 +733,45 @@ func staleMarking(c *Ctx, h *staleHiding, owner *Body, staleObj types.Object, fa
 					continue
 				}
 			}
+			// the same map under other local names (m2 = m, m2 := m): a map value is a reference
+			alias := map[types.Object]bool{mObj: true}
+			for changed := true; changed; {
+				changed = false
+				inspectOwn(b.Block, func(k ast.Node) bool {
+					as, isAs := k.(*ast.AssignStmt)
+					if !isAs || len(as.Lhs) != len(as.Rhs) {
+						return true
+					}
+					for i2, l := range as.Lhs {
+						lid, ok1 := l.(*ast.Ident)
+						rid, ok2 := ast.Unparen(as.Rhs[i2]).(*ast.Ident)
+						if !ok1 || !ok2 {
+							continue
+						}
+						lo, ro := objOf(info, lid), info.Uses[rid]
+						if lo == nil || ro == nil {
+							continue
+						}
+						if alias[lo] != alias[ro] {
+							alias[lo], alias[ro] = true, true
+							changed = true
+						}
+					}
+					return true
+				})
+			}
+			// a set written as map[K]struct{}: every stored element marks
+			marks := func(e ast.Expr) bool {
+				if constIsTrue(info, e) {
+					return true
+				}
+				if t := info.TypeOf(e); t != nil {
+					if st, isSt := t.Underlying().(*types.Struct); isSt && st.NumFields() == 0 {
+						return true
+					}
+				}
+				return false
+			}
 			// a local map: for _, p := range P { m[p] = true }, unconditional, before the call; P is what is loaded
 			all := false
 			var ranged types.Object
@@ -737,7 +797,7 @@ func staleMarking(c *Ctx, h *staleHiding, owner *Body, staleObj types.Object, fa
 					}
 					mid, isM := ast.Unparen(ix.X).(*ast.Ident)
 					kid, isK := ast.Unparen(ix.Index).(*ast.Ident)
-					if isM && isK && info.Uses[mid] == mObj && info.Uses[kid] == vObj && constIsTrue(info, as.Rhs[0]) {
+					if isM && isK && alias[info.Uses[mid]] && info.Uses[kid] == vObj && marks(as.Rhs[0]) {
 						all = true
 						ranged = info.Uses[x]
 					}
@@ -773,14 +833,14 @@ func staleMarking(c *Ctx, h *staleHiding, owner *Body, staleObj types.Object, fa
 				switch x := k.(type) {
 				case *ast.CallExpr:
 					if exprStr(x.Fun) == "delete" && len(x.Args) == 2 {
-						if mid, isM := ast.Unparen(x.Args[0]).(*ast.Ident); isM && info.Uses[mid] == mObj {
+						if mid, isM := ast.Unparen(x.Args[0]).(*ast.Ident); isM && alias[info.Uses[mid]] {
 							all = false
 						}
 					}
 				case *ast.AssignStmt:
 					for i, l := range x.Lhs {
 						if ix, isIx := l.(*ast.IndexExpr); isIx && len(x.Rhs) == len(x.Lhs) {
-							if mid, isM := ast.Unparen(ix.X).(*ast.Ident); isM && info.Uses[mid] == mObj && !constIsTrue(info, x.Rhs[i]) {
+							if mid, isM := ast.Unparen(ix.X).(*ast.Ident); isM && alias[info.Uses[mid]] && !marks(x.Rhs[i]) {
 								all = false
 							}
 						}
